@@ -25,6 +25,8 @@ Theorems (all over Model/Routing.lean applied to the tables regenerated from /re
   produce_record_format / produce_encoded_for_negotiated_version / prepare_uses_request_version / leave_group_body
                             the body parts Prepare derives from the negotiated version (regenerated): record format
                             (magic) of Produce fits the version for every version; LeaveGroup member id below v3
+  split_parts_carry_request_fields / split_options_arrive
+                            every sub-request a Split method builds sets every wire field of the request (regenerated table)
   layout_omits_internal     makeLayout never lists an internal topic, so refreshMetadata cannot see one appear (observation)
   negotiated_unlisted       an API the broker does not list: version 0 if the client supports it, else refused client-side
   parts_cover_splitters     every Splitter type of the source has a split model (regenerated table, decide)
@@ -737,5 +739,29 @@ theorem leave_group_body (v : Int) (members : List String) :
   · simp [h]
 
 end prepare
+
+/-! ## the parts of a split request carry the caller's request -/
+
+section splitfields
+open KV.Spec.Routing (optionOK optionSince)
+
+/-- **split_parts_carry_request_fields**: for every protocol package with a `Split` method (regenerated: wire fields of
+Request, fields set by each sub-request literal of Split), every sub-request sets every wire field of the request —
+nothing the caller put into the request is lost on the way to the designated brokers -/
+theorem split_parts_carry_request_fields :
+    (splitSubrequests.all fun (_, fields, subs) => subs.all fun s => fields.all fun f => s.any (·.1 == f)) = true := by
+  decide
+
+/-- … hence an option switched on by the caller arrives switched on at every version that has it -/
+theorem split_options_arrive (v : Int) :
+    optionOK 32 "IncludeSynonyms" v (optionArrives "describeconfigs" "IncludeSynonyms" 1 v) = true ∧
+    optionOK 32 "IncludeDocumentation" v (optionArrives "describeconfigs" "IncludeDocumentation" 3 v) = true ∧
+    optionOK 15 "IncludeAuthorizedOperations" v (optionArrives "describegroups" "IncludeAuthorizedOperations" 3 v) = true := by
+  have h1 : splitCarries "describeconfigs" "IncludeSynonyms" = true := by decide
+  have h2 : splitCarries "describeconfigs" "IncludeDocumentation" = true := by decide
+  have h3 : splitCarries "describegroups" "IncludeAuthorizedOperations" = true := by decide
+  simp [optionOK, optionSince, optionArrives, h1, h2, h3]
+
+end splitfields
 
 end KV.Props.C12
